@@ -31,7 +31,7 @@ def repo_source_hash():
             pass
     return h.hexdigest()
 
-def build(features=(), target=None):
+def build(features=(), target=None, curves=False):
     """cargo build --release of the harness against /repo's working tree."""
     t0 = time.time()
     subprocess.run(["python3", V + "/lib/gen_toy.py"], check=True, capture_output=True)
@@ -40,6 +40,8 @@ def build(features=(), target=None):
     tdir = HARNESS + "/" + (target or "target")
     stamp = tdir + "/.verif_src_hash"
     cur = repo_source_hash() + "|" + ",".join(features)
+    if not os.path.exists(HARNESS + "/shims/bn254/Cargo.toml"):
+        subprocess.run(["python3", V + "/lib/gen_shims.py"], check=True, capture_output=True)
     old = open(stamp).read() if os.path.exists(stamp) else ""
     env = dict(os.environ, CARGO_NET_OFFLINE="true")
     if old != cur and os.path.exists(tdir):
@@ -48,8 +50,9 @@ def build(features=(), target=None):
                         "-p", "ark-serialize", "-p", "ark-test-curves", "-p", "ark-ff-macros", "-p", "ark-ff-asm",
                         "-p", "ark-serialize-derive", "-p", "vh-core", "--target-dir", tdir],
                        cwd=HARNESS, env=env, capture_output=True)
-    cmd = ["cargo", "build", "--release", "--offline", "--target-dir", tdir]
-    if features: cmd += ["--features", ",".join(features)]
+    cmd = ["cargo", "build", "--release", "--offline", "--target-dir", tdir, "-p", "vh-core"]
+    if curves: cmd += ["-p", "vh-curves"]
+    if features: cmd += ["--features", ",".join("vh-core/" + f for f in features)]
     r = subprocess.run(cmd, cwd=HARNESS, env=env, capture_output=True, text=True)
     if r.returncode != 0:
         sys.stderr.write(r.stderr[-6000:])
